@@ -119,6 +119,10 @@ func C07(c *Ctx) {
 }
 
 func C09(c *Ctx) {
-	R5RangeMut(c, nil, 15)
-	R3LockPair(c, nil, 12)
+	R9Pivot(c)
+	R9CycleGuard(c)
+	R5RangeMut(c, func(fn string) bool {
+		return strings.Contains(fn, "UnlinkFromAll") || strings.Contains(fn, "LinkRemove") || strings.Contains(fn, "TaskDispatch") || strings.Contains(fn, "Died")
+	}, 3)
+	R1AgentsAppendOnly(c)
 }
